@@ -52,6 +52,40 @@ func c20Fn(c *rt.Ctx, method string) *ssa.Function {
 	return c.Fn(c20Pkg + ".DutiesCache." + method)
 }
 
+// c20Helper resolves the per-role cache helper the entry point calls: kind "fetch" (reads the role's requestedIdxs
+// map and writes none of the role's maps) or "storeOrAmend" (writes the role's requestedIdxs map). The conventional
+// name is tried first; a renamed helper is found by what it does to the role's maps.
+func c20Helper(c *rt.Ctx, role c20Role, kind string) *ssa.Function {
+	if f := c.FnOpt(c20Pkg + ".DutiesCache." + kind + role.name + "Duties"); f != nil {
+		return f
+	}
+	entry := c20Fn(c, role.entry)
+	fkey := c20Pkg + "." + role.name + "Duties.requestedIdxs"
+	var found []*ssa.Function
+	seen := map[*ssa.Function]bool{}
+	for _, ci := range an.Calls(entry, func(cc *ssa.CallCommon) bool { return !cc.IsInvoke() && cc.StaticCallee() != nil }, false) {
+		f := an.Orig(ci.Common().StaticCallee())
+		if f == nil || seen[f] || f.Pkg != entry.Pkg || len(f.Blocks) == 0 {
+			continue
+		}
+		seen[f] = true
+		writes := len(mapUpdates(f, isFieldMap(fkey))) > 0
+		reads := false
+		for _, in := range an.Instrs(f, true) {
+			if lk, ok := in.(*ssa.Lookup); ok && isFieldMap(fkey)(lk.X) {
+				reads = true
+			}
+		}
+		if (kind == "storeOrAmend" && writes) || (kind == "fetch" && reads && !writes) {
+			found = append(found, f)
+		}
+	}
+	if len(found) != 1 {
+		c.Bail("%s: cannot resolve the %s helper of the %s store (no function of that name, and %d functions called from the entry point fit its role)", role.entry, kind, role.field, len(found))
+	}
+	return found[0]
+}
+
 func c20(c *rt.Ctx) {
 	c.Rule("Z1", 13, func() { c20Z1(c) })
 	// Z2: 10 guarded fields, each read and written in at least one function, plus the read→write and entry-requirement
@@ -203,14 +237,12 @@ func c20Z1(c *rt.Ctx) {
 	// other two do not; it is then compared only as far as it is identical (Z3/Z4 check it on its own).
 	type family struct {
 		names  [3]string
+		fns    [3]*ssa.Function
 		copies bool
-	}
-	families := []family{{[3]string{"ProposerDutiesCache", "AttesterDutiesCache", "SyncCommDutiesCache"}, true}}
-	for _, pre := range []string{"fetch", "storeOrAmend", "trimBefore", "trimAfter"} {
-		families = append(families, family{[3]string{pre + "ProposerDuties", pre + "AttesterDuties", pre + "SyncDuties"}, pre == "storeOrAmend"})
 	}
 	// flat[i]: the duty element type of role i holds no reference-typed member
 	var flat [3]bool
+	var elems [3]types.Type
 	for i, r := range c20Roles {
 		entry := c20Fn(c, r.entry)
 		rst, ok := entry.Signature.Results().At(0).Type().Underlying().(*types.Struct)
@@ -226,15 +258,72 @@ func c20Z1(c *rt.Ctx) {
 			el = p.Elem()
 		}
 		flat[i] = c20Refless(el)
+		elems[i] = el
+	}
+	// the families: every triple of functions reachable (in-package, through calls and function values) from the
+	// API of DutiesCache whose names are equal up to the role word. Found by reachability, not by a list of names:
+	// a renamed, split or merged helper family is compared like the original one.
+	var roots []*ssa.Function
+	for _, r := range c20Roles {
+		roots = append(roots, c20Fn(c, r.entry))
+	}
+	roots = append(roots, c20Fn(c, "Trim"), c20Fn(c, "InvalidateCache"))
+	byNorm := map[string]*family{}
+	var order []string
+	for _, fn := range c20Reachable(roots) {
+		if fn.Parent() != nil || fn.Synthetic != "" {
+			continue
+		}
+		short := fn.Name()
+		ri := c20RoleOf(short)
+		if ri < 0 {
+			continue
+		}
+		key := c20Norm(an.FuncName(fn))
+		fam := byNorm[key]
+		if fam == nil {
+			fam = &family{}
+			byNorm[key] = fam
+			order = append(order, key)
+		}
+		if fam.fns[ri] != nil {
+			fam.names[ri] = "" // two functions of one role under the same normalised name: not a triple
+			continue
+		}
+		fam.fns[ri], fam.names[ri] = fn, short
+	}
+	sort.Strings(order)
+	var families []family
+	for _, k := range order {
+		fam := byNorm[k]
+		if fam.fns[0] == nil || fam.fns[1] == nil || fam.fns[2] == nil || fam.names[0] == "" || fam.names[1] == "" || fam.names[2] == "" {
+			continue
+		}
+		// copies: the family handles individual duty values (loads, copies, appends them), so the sibling whose
+		// element type holds a slice may need deep-copy code the others do not
+		for i := range fam.fns {
+			if c20HandlesElem(fam.fns[i], elems[i]) {
+				fam.copies = true
+			}
+		}
+		families = append(families, *fam)
+	}
+	hasEntry := false
+	for _, fam := range families {
+		if fam.fns[0] == roots[0] && fam.fns[1] == roots[1] && fam.fns[2] == roots[2] {
+			hasEntry = true
+		}
+	}
+	if !hasEntry {
+		c.Bail("the three cache entry points are not recognised as one family of siblings")
 	}
 	for _, fam := range families {
 		var canon [3]string
 		var lines [3][]string
 		var at [3][]ssa.Instruction
-		var fns [3]*ssa.Function
+		fns := fam.fns
 		var full, skel [3][]string
-		for i, n := range fam.names {
-			fns[i] = c20Fn(c, n)
+		for i := range fam.names {
 			lines[i], at[i] = c20Canon(fns[i])
 			canon[i] = strings.Join(lines[i], "\n")
 		}
@@ -329,6 +418,84 @@ func c20Z1(c *rt.Ctx) {
 			}
 		}
 	}
+}
+
+// c20RoleOf: index of the role word in a function name (-1: none, or more than one role).
+func c20RoleOf(name string) int {
+	idx := -1
+	for _, m := range c20RoleRe.FindAllString(name, -1) {
+		i := -1
+		switch strings.ToLower(m)[:4] {
+		case "prop":
+			i = 0
+		case "atte":
+			i = 1
+		case "sync":
+			i = 2
+		}
+		if idx >= 0 && i != idx {
+			return -1
+		}
+		idx = i
+	}
+	return idx
+}
+
+// c20Reachable: the functions of the roots' package reachable from the roots through static calls and through
+// function values (method values, function literals are part of their parents), in a stable order.
+func c20Reachable(roots []*ssa.Function) []*ssa.Function {
+	seen := map[*ssa.Function]bool{}
+	var out []*ssa.Function
+	var visit func(f *ssa.Function)
+	visit = func(f *ssa.Function) {
+		f = an.Orig(f)
+		if f == nil || seen[f] || len(roots) == 0 || (f.Pkg != roots[0].Pkg && !(f.Pkg == nil && f.Synthetic != "")) {
+			return
+		}
+		seen[f] = true
+		if f.Synthetic == "" {
+			out = append(out, f)
+		}
+		for _, b := range f.Blocks {
+			for _, in := range b.Instrs {
+				for _, op := range in.Operands(nil) {
+					if op == nil || *op == nil {
+						continue
+					}
+					switch x := (*op).(type) {
+					case *ssa.Function:
+						visit(x)
+					case *ssa.MakeClosure:
+						if g, ok := x.Fn.(*ssa.Function); ok {
+							visit(g)
+						}
+					}
+				}
+				if mc, ok := in.(*ssa.MakeClosure); ok {
+					if g, ok := mc.Fn.(*ssa.Function); ok {
+						visit(g)
+					}
+				}
+			}
+		}
+		for _, a := range f.AnonFuncs {
+			visit(a)
+		}
+	}
+	for _, r := range roots {
+		visit(r)
+	}
+	return out
+}
+
+// c20HandlesElem: fn (or one of its literals) has a value of the duty element type itself (not only slices of it).
+func c20HandlesElem(fn *ssa.Function, elem types.Type) bool {
+	for _, in := range an.Instrs(fn, true) {
+		if v, ok := in.(ssa.Value); ok && v.Type() != nil && types.Identical(v.Type(), elem) {
+			return true
+		}
+	}
+	return false
 }
 
 // ---------------------------------------------------------------------------------------------
@@ -623,6 +790,7 @@ type c20Origin struct {
 	call ssa.Value     // ext: the call
 	path string        // field path below the owner (".proposerDuties.metadata", ".Data")
 	why  string        // unknown: reason
+	site string        // ext/fresh obtained inside followed callees: the chain of call sites leading to the allocation
 }
 
 func (o c20Origin) key() string {
@@ -630,9 +798,9 @@ func (o c20Origin) key() string {
 	case "param":
 		return fmt.Sprintf("param %s #%d %s", an.FuncName(o.fn), o.idx, o.path)
 	case "ext":
-		return fmt.Sprintf("ext %p %s", o.call, o.path)
+		return fmt.Sprintf("ext %p %s %s", o.call, o.site, o.path)
 	case "fresh":
-		return fmt.Sprintf("fresh %p %s", o.call, o.path)
+		return fmt.Sprintf("fresh %p %s %s", o.call, o.site, o.path)
 	}
 	return "unknown " + o.why
 }
@@ -1044,8 +1212,9 @@ func (a *c20Alias) callResult(call *ssa.Call, idx int, sel []string) c20Set {
 					}
 					out.addAll(a.reach(cc.Args[o.idx], psel))
 				} else if o.kind == "fresh" || o.kind == "ext" {
-					// memory obtained inside the callee is new for every execution of this call site
-					o.call = call
+					// memory obtained inside the callee is new for every execution of this call site; two
+					// different allocations of the callee stay different (identity = allocation + call chain)
+					o.site = fmt.Sprintf("%p/", call) + o.site
 					out.add(o)
 				} else {
 					out.add(o)
@@ -1126,7 +1295,7 @@ func c20Z3(c *rt.Ctx) {
 			}
 		}
 		// K1: writes into the role's store
-		store := c20Fn(c, "storeOrAmend"+role.name+"Duties")
+		store := c20Helper(c, role, "storeOrAmend")
 		sites := an.Calls(entry, func(cc *ssa.CallCommon) bool { return cc.StaticCallee() == store }, false)
 		if len(sites) == 0 {
 			c.Bail("%s does not call %s", role.entry, store.Name())
@@ -1166,7 +1335,7 @@ func c20Z3(c *rt.Ctx) {
 				case o.kind == "ext" || o.kind == "fresh":
 					for rf, rs := range returned {
 						for _, ro := range rs {
-							if ro.kind == o.kind && ro.call == o.call && c20MayAlias(ro.path, o.path) {
+							if ro.kind == o.kind && ro.call == o.call && ro.site == o.site && c20MayAlias(ro.path, o.path) {
 								bad = append(bad, "is "+describe(o)+", which is also handed to the caller in result."+rf)
 							}
 						}
@@ -1403,30 +1572,72 @@ func c20Z4(c *rt.Ctx) {
 			}
 			c.Bail("%s calls no per-store trim function", ts.api)
 		}
+		// the value every deleting comparison must refer to: the epoch handed to the API (Trim: possibly minus a constant)
+		isBound := func(w *c19Walker, v ssa.Value) bool {
+			os := w.origins(v)
+			if len(os) == 0 {
+				return false
+			}
+			for _, o := range os {
+				o = an.Unwrap(o)
+				if o == ssa.Value(epochP) {
+					continue
+				}
+				if bin, isBin := o.(*ssa.BinOp); isBin && ts.api == "Trim" && bin.Op == token.SUB && c19Only(bin.X, epochP) {
+					if _, isC := bin.Y.(*ssa.Const); isC {
+						continue
+					}
+				}
+				return false
+			}
+			return true
+		}
+		type cell struct {
+			res c20DelResult
+			tc  c20TrimCallee
+		}
+		attributed := map[ssa.Instruction]bool{}
+		results := map[string][]cell{}
+		var keyT types.Type
+		for _, role := range c20Roles {
+			for _, sf := range c20StateFields {
+				fkey := c20Pkg + "." + role.name + "Duties." + sf
+				for _, tc := range callees {
+					tr := &c20Trim{isBound: isBound, attributed: attributed}
+					res := tr.analyse(tc.g, func(v ssa.Value) bool {
+						k, _, ok := an.FieldOf(v)
+						if !ok || k != fkey {
+							return false
+						}
+						// the map itself, not one of its elements
+						m, isMap := v.Type().Underlying().(*types.Map)
+						if isMap && keyT == nil {
+							keyT = m.Key()
+						}
+						return isMap
+					}, tc.bind, 0)
+					if res.found {
+						results[fkey] = append(results[fkey], cell{res, tc})
+					}
+				}
+			}
+		}
+		if keyT == nil {
+			keyT = epochP.Type()
+		}
+		unfollowed := c20Unfollowed(callees, attributed, keyT)
 		for _, role := range c20Roles {
 			ops := map[token.Token]bool{}
 			for _, sf := range c20StateFields {
 				fkey := c20Pkg + "." + role.name + "Duties." + sf
 				construct := ts.api + "→" + role.field + "." + sf
 				found, why, unsure := false, "no function called from "+ts.api+" deletes from this map", ""
-				for _, tc := range callees {
+				if len(results[fkey]) == 0 && unfollowed != "" {
+					unsure = unfollowed
+				}
+				for _, cl := range results[fkey] {
+					res, tc := cl.res, cl.tc
 					g := tc.g
-					if len(g.Params) < 2 {
-						continue
-					}
-					tr := &c20Trim{bound: g.Params[1]}
-					res := tr.analyse(g, func(v ssa.Value) bool {
-						k, _, ok := an.FieldOf(v)
-						if !ok || k != fkey {
-							return false
-						}
-						// the map itself, not one of its elements
-						_, isMap := v.Type().Underlying().(*types.Map)
-						return isMap
-					}, nil, 0)
-					if !res.found {
-						continue
-					}
 					if res.bad != "" {
 						why = g.Name() + ": " + res.bad
 						continue
@@ -1438,6 +1649,10 @@ func c20Z4(c *rt.Ctx) {
 					op, w := res.op()
 					if op == token.ILLEGAL {
 						why = g.Name() + ": " + w
+						// a direct call with another epoch than the one handed to the API: say so
+						if tc.bound != nil && !isBound(&c19Walker{}, tc.bound) {
+							why = g.Name() + " is not called with the epoch handed to " + ts.api
+						}
 						continue
 					}
 					okOp := false
@@ -1452,21 +1667,6 @@ func c20Z4(c *rt.Ctx) {
 					}
 					if !tc.certain {
 						why = g.Name() + ": " + tc.whyNot
-						continue
-					}
-					// the bound handed over
-					arg := an.Unwrap(tc.bound)
-					okArg := arg == ssa.Value(epochP)
-					if bin, isBin := arg.(*ssa.BinOp); isBin && ts.api == "Trim" && bin.Op == token.SUB && bin.X == ssa.Value(epochP) {
-						if _, isC := bin.Y.(*ssa.Const); isC {
-							okArg = true
-						}
-					}
-					if ts.api == "InvalidateCache" && arg != ssa.Value(epochP) {
-						okArg = false
-					}
-					if !okArg {
-						why = g.Name() + " is not called with the epoch handed to " + ts.api
 						continue
 					}
 					// unconditional: the call is reached on every path that does not leave before any trimming
